@@ -465,7 +465,14 @@ def verify_dom(doc, sig, default_key, ids, allowed=ALL_URI_KINDS, enabled=None, 
     smn = child(si, DS, 'SignatureMethod')
     sm = smn.getAttribute('Algorithm') if smn is not None else None
     if sm not in SIGH:
-        raise Fail('func=xmlSecTransformNodeRead:error=unsupported signature method %s' % sm)
+        # the tool's diagnostics echo the algorithm URI taken from the document at the end of a line, before the verdict
+        raise Fail('func=xmlSecTransformNodeRead:file=transforms.c:line=1324:obj=unknown:subj=xmlSecTransformIdListFindByHref:'
+                   'error=1:xmlsec library function failed:href=%s\n'
+                   'func=xmlSecTransformCtxNodeRead:file=transforms.c:line=1483:obj=unknown:subj=xmlSecTransformNodeRead:'
+                   'error=1:xmlsec library function failed:name=SignatureMethod\n'
+                   'func=xmlSecDSigCtxVerify:file=xmldsig.c:line=401:obj=unknown:subj=xmlSecDSigCtxProcessSignatureNode:error=1:'
+                   'xmlsec library function failed: \nError: signature failed\nERROR\n'
+                   'SignedInfo References (ok/all): 0/0\nManifests References (ok/all): 0/0' % sm)
     c14n_signed_info(si)  # algorithm check happens while reading SignedInfo
     refs = children(si, DS, 'Reference')
     if not refs:
